@@ -86,10 +86,17 @@ def groupJ : Except Err (List Reply) → J
   | .ok o => J.mk [("out", J.arr (o.map replyJ))]
   | .error e => J.mk [("fail", J.str (errName e))]
 
-/-- request {"state":{…},"msgs":[…]} → {"groups":[{"out":[…]}|{"fail":…},…]} -/
+def finalJ (s : SwitchState) : J :=
+  J.mk [("config", J.ofNats [s.configFlags, s.missSendLen]), ("hello", J.bool s.hasSentHello),
+        ("ports", J.arr (s.ports.map portJ)),
+        ("table", J.arr (s.table.map fun f => J.arr [J.ofNat f.priority, J.ofNat f.cookie, J.ofOptNat f.mkey, J.ofNat f.flags, J.ofNats f.outs])),
+        ("buffers", J.ofNats (s.buffers.map fun b => if b then 1 else 0))]
+
+/-- request {"state":{…},"msgs":[…]} → {"groups":[{"out":[…]}|{"fail":…},…],"final":{…}} -/
 def handle (j : J) : Except String J := do
   let s ← parseState (← j.get "state")
   let ms ← (← j.array "msgs").mapM parseMsg
-  pure (J.mk [("groups", J.arr ((runTolerant s ms).map groupJ))])
+  let r := runTolerant s ms
+  pure (J.mk [("groups", J.arr (r.2.map groupJ)), ("final", finalJ r.1)])
 
 def main : IO Unit := serve handle
